@@ -104,6 +104,8 @@ type ctl struct {
 	step      int
 	running   int // callbacks currently executing
 	popSteps  []int
+	parkTime  time.Time
+	graceTill time.Time // lateness is not judged before this instant (see resume)
 	closeRet  *atomic.Bool
 }
 
@@ -124,6 +126,7 @@ func init() {
 		var ch chan struct{}
 		if c.armed == point && !c.parked {
 			c.parked, c.parkedAt = true, point
+			c.parkTime = time.Now()
 			ch = c.resumeCh
 		}
 		c.mu.Unlock()
@@ -231,7 +234,10 @@ func runProc(t *testing.T, c procCase) (out outcome, err error) {
 					delete(live, m.it.key)
 				}
 			}
-			if !suspended() {
+			k.mu.Lock()
+			inGrace := now.Before(k.graceTill)
+			k.mu.Unlock()
+			if !suspended() && !inGrace {
 				for key, m := range live {
 					if !m.it.due.After(now) {
 						errs.Failf("after %s: item %d (key k%d) scheduled %v ago is still waiting although the clock reached its time and nothing is blocked (stranded or late)", step, m.it.id, key, now.Sub(m.it.due))
@@ -330,6 +336,12 @@ func runProc(t *testing.T, c procCase) (out outcome, err error) {
 				if k.parked {
 					close(k.resumeCh)
 					k.parked = false
+					if k.parkedAt == "loop.beforeTimer" {
+						// The loop arms its timer with the wait it computed before it was parked, so the head
+						// runs late by exactly the length of the pause (a real context switch lasts
+						// microseconds; here the clock may have jumped while it was parked). Not a defect.
+						k.graceTill = time.Now().Add(time.Since(k.parkTime))
+					}
 				}
 				k.armed = ""
 				k.mu.Unlock()
@@ -562,7 +574,7 @@ func record(sec *vk.Section, c procCase, out outcome) {
 
 func TestProcessorHistories(t *testing.T) {
 	sec := vk.Sec("ProcessorHistories")
-	vk.Check(t, 15000, 500000, func(rt *rapid.T) {
+	vk.Check(t, 60000, 1500000, func(rt *rapid.T) {
 		c := genCase(rt)
 		out, err := runProc(t, c)
 		if err != nil {
